@@ -216,10 +216,10 @@ CHECKS = {
         "hypothesis); `reframes` needs no such hypothesis (a Some(x) re-framed as null is not in the relation). The theorem files are Thm/C09Round.lean (round trip, errors, "
         "re-framing) and Thm/C09.lean (borrowing; imports the former). Front end outside the model as for C08."),
  "C10": dict(
-   text="Lean theorem compat_decode (general, proved): for ANY two accepted versions w, r of a type with `compatible w r` (Compat.lean: compatTy, the directional relation "
+   text="Lean theorem compat_decode_full : compat_decode_statement (the property in full, proved; = compat_decode with `benign` discharged by benign_always since the repair of K5, 3d449b2): for ANY two accepted versions w, r of a type with `compatible w r` (Compat.lean: compatTy, the directional relation "
         "'reader r reads writer w' generated by the documented edits at any nesting depth - shared fields by index with equal tag and compatible types, unshared reader fields "
         "optional, writer-only fields arbitrary, enum variants may differ only where the enum is the declared type of an optional field, unit <-> all-optional-fields variants, "
-        "both encodings, index_only and regular enums, transparent wrappers, Option, Vec) and every well-typed value v of w outside K5 (decidable `benign`) and outside the "
+        "both encodings, index_only and regular enums, transparent wrappers, Option, Vec) and every well-typed value v of w outside the "
         "Some(x)=null exclusion of C09 (noClash), with (encode w v).length < 2^64: EXISTS pv, project w r v = ok pv AND decTy r (encTy w v ++ rest) = ok pv rest for ARBITRARY "
         "trailing bytes (compat_decode = project_defined + compat_decode_partial). Proof: mutual structural induction over the writer's schema following compatTy (compat_ty / "
         "compat_one / compat_fields / compat_vars), the reader's slot loops on a body written by another version (fieldsDec_compat -> body_compat: shared fields projected "
@@ -230,18 +230,17 @@ CHECKS = {
         "total on compatible versions (never `bad`; `unknown` only in lenient position), so the theorem is not vacuous. Both directions of EVERY documented edit are instances of "
         "`compatible`: step_compatible (induction over the inductive relation CompatStep - rename / n<->b via compat_anon, add / drop optional field, add variant in optional "
         "position, unit variant -> variant with only optional fields, and the congruences inside field types, Option and Vec), hence compat_decode_step: for every single documented "
-        "edit between accepted versions each side reads what the other wrote and obtains the projection. Kept: compat_decode_statement (no benign) with its machine-checked refutation by K5 "
-        "(compat_counterexample_K5, compat_decode_statement_false), k5_benign_excludes, compat_F5_repaired, compat_not_transitive (a retired index re-used with another type), "
+        "edit between accepted versions each side reads what the other wrote and obtains the projection. Kept: compat_K5_repaired (the former counterexample 83 01 f6 02 now decodes to the projection; c5 f6, c5 09 and the wrong tag c6 "
+        "behave as before), bare_null_needs_nil (a tagged mandatory field still insists on its tag), compat_F5_repaired, compat_not_transitive (a retired index re-used with another type), "
         "compat_missing_mandatory; the one-level theorems compat_decode_fields / compat_decode_struct_partial / compat_add_optional_field / compat_drop_field / "
         "compat_unknown_variant_*. Concrete two-version example with nesting, gap and new indices, map-encoded Vec elements, new variant in optional position and "
         "unit->struct variant checked through the theorem (compat_example_hyps + examples). "
         "Correspondence: chains of versions produced by random sequences of the documented edits (any nesting depth, both encodings, regular / index_only enums, tagged fields, "
-        "nil-aware codec) x every ordered pair x every writer value: implementation == Lean project (value, position) and == model; deviations are accepted only where the model's "
-        "hazard classification says K5.",
+        "nil-aware codec) x every ordered pair x every writer value: implementation == Lean project (value, position) and == model; no deviation is accepted (K5 and F5 inputs are part of the fixed corpus).",
    design="5/C10", technique="Lean 4 proof (mutual structural induction over pairs of schemas; slot invariant with per-index results; C06 skip exactness through C08's encode = spec) + "
         "executable specification + machine-checked counterexamples + generated-crate differential correspondence against the specification",
-   note="The general theorem is proved for the whole schema universe of the derive model. Hypotheses beyond the property's wording, all decidable: benign (excludes exactly the "
-        "known finding K5), noClash (Some(x) encoded as null, C09's documented exclusion), encoding shorter than 2^64 bytes (true of every Rust slice; skip() counts in u64). "
+   note="The general theorem is proved for the whole schema universe of the derive model. Hypotheses beyond the property's wording, all decidable: "
+        "noClash (Some(x) encoded as null, C09's documented exclusion), encoding shorter than 2^64 bytes (true of every Rust slice; skip() counts in u64). "
         "`compatible` is the relation that actually holds: the documented edits do not compose when a retired index is re-used with another type (compat_not_transitive), so the "
         "correspondence generator never re-uses one; chains of edits are covered edit by edit (compat_decode_step) and, as pairs, whenever `compatible` holds (decidable). "
         "Front end outside the model as for C08."),
